@@ -25,7 +25,8 @@ FUNCTIONS = ["strax.storage.common.Saver.save_from", "Saver.save", "Saver.close"
 BOUNDS = {
     "quick": "<=3 chunks, <=4 rows (overlapping rows, empty and zero-duration chunks); dtype templates time+endtime, "
              "time+length+dt, array-valued field, titled fields; rechunk off / on with 1-3 row targets; single-thread "
-             "saver and Saver.save_from with a (synchronous) executor",
+             "processor (SaverSpy) and, for six configurations, the threaded processor's saver thread (Saver.save_from) "
+             "under one round-robin schedule",
     "thorough": "<=4 chunks, <=5 rows",
 }
 ASSUMPTIONS = ["byte layer stubbed: a chunk file holds a handle into an in-memory table (temp name + rename like the "
@@ -95,14 +96,30 @@ def _tsm(rows, itemsize):
     raise AssertionError
 
 
-def _roundtrip(L, dtype_name, obj, rechunk, target_rows, path):
+def _make(st, proc):
+    if proc == "single":
+        st.make(RUN, "src", processor="single_thread")
+        return
+    # threaded processor: the saver thread runs the real Saver.save_from (its own chunk counter and Rechunker
+    # loop); one deterministic round-robin schedule (the mailbox obligations of C05 cover the schedules)
+    from symx import conc
+    from harness import mbox
+
+    with mbox.SchedRun(conc.POLICIES["rr"]) as s:
+        try:
+            st.make(RUN, "src", processor="threaded_mailbox")
+        finally:
+            s.finish()
+
+
+def _roundtrip(L, dtype_name, obj, rechunk, target_rows, path, proc="single"):
     import strax
 
     isz = _itemsize(dtype_name)[0 if obj else 1]
     tsm = _tsm(target_rows, isz) if rechunk else None
     P = [P_src(L, dtype_name, obj, rechunk, tsm)]
-    st = ctx.make_context(P, storage=[strax.DataDirectory(path)])
-    st.make(RUN, "src", processor="single_thread")
+    st = ctx.make_context(P, storage=[strax.DataDirectory(path)], timeout=2)
+    _make(st, proc)
     # a brand-new context (same plugin class, nothing computed): everything comes from the files
     st2 = ctx.make_context(P, storage=[strax.DataDirectory(path, readonly=True)], forbid_creation_of=("src",))
     chunks = list(st2.get_iter(RUN, "src", processor="single_thread", progress_bar=False))
@@ -160,13 +177,13 @@ def _check(chunks, md, L, dtype_name, rechunk):
     return [len(c.data) for c in chunks]
 
 
-def sym_roundtrip(layout, dtype_name="end", rechunk=False, target=1):
+def sym_roundtrip(layout, dtype_name="end", rechunk=False, target=1, proc="single"):
     S = fresh_int("S", 0, H.T_MAX)
     E = fresh_int("E", 0, H.T_MAX)
     L = ctx.sym_layout("src_", layout, S, E=E)
     path = tempfile.mkdtemp(prefix="verif_c03_")
     try:
-        chunks, md = _roundtrip(L, dtype_name, True, rechunk, target, path)
+        chunks, md = _roundtrip(L, dtype_name, True, rechunk, target, path, proc)
         return _check(chunks, md, L, dtype_name, rechunk)
     finally:
         shutil.rmtree(path, ignore_errors=True)
@@ -182,7 +199,7 @@ def nat_roundtrip(params, model):
             warnings.simplefilter("ignore")
             try:
                 chunks, md = _roundtrip(L, params.get("dtype_name", "end"), False, params.get("rechunk", False),
-                                        params.get("target", 1), path)
+                                        params.get("target", 1), path, params.get("proc", "single"))
             except Exception as e:
                 return {"ok": False, "detail": f"raised {type(e).__name__}: {e}"}
         label = core.concrete_run(lambda: _check(chunks, md, L, params.get("dtype_name", "end"), params.get("rechunk", False)), model)
@@ -205,6 +222,10 @@ def _grid(tier):
         for tgt in (1, 2, 3):
             if tgt < sum(l) or tgt == 1:
                 g.append(dict(layout=l, rechunk=True, target=tgt))
+    # saved by the threaded processor's saver thread (Saver.save_from): merging targets make some receive() calls
+    # return no chunk, splitting targets several
+    for l, tgt in (([1, 1], None), ([1, 1, 1], 3), ([1, 1, 1], 2), ([2, 1], 1), ([0, 1, 1], 2), ([1, 0, 1], 1)):
+        g.append(dict(layout=l, proc="threaded", **(dict(rechunk=True, target=tgt) if tgt else {})))
     for dn in ("len", "arr", "titled"):
         g.append(dict(layout=[2, 1], dtype_name=dn))
         g.append(dict(layout=[1, 1, 1], dtype_name=dn, rechunk=True, target=2))
